@@ -898,3 +898,620 @@ def record_parse(rng, conc, reader, lines, strict, kind, nl, nobs=24):
             obs.append({"r": "skip"})
     final = reader.obs(run_parse(phys, strict, kind))
     return {"kind": "parse", "strict": strict, "lines": lines, "obs": obs, "final": final}
+
+
+# ------------------------------------------------------------------ (b) API histories over several live objects
+
+def gen_entry(rng, nopts=None):
+    """an entry as symbols (input generation only)"""
+    url = rng.choice(URLS[:3] + URLS[6:8])
+    e = {"url": url, "mp": [], "vr": [], "sc": [], "o": []}
+    n = rng.choice([0, 1, 2, 3])
+    if n >= 1:
+        e["mp"] = rng.choice(MPS)
+    if n >= 2:
+        e["vr"] = [8]
+    if n >= 3:
+        e["sc"] = rng.choice(SCS)
+    k = rng.choice([0, 0, 1, 2]) if nopts is None else nopts
+    e["o"] = [rng.choice([[2], [3], [2, SP2, 3], [SP2, 3]]) for _ in range(k)]
+    return e
+
+
+def build_watch(conc, e, style):
+    from debian.watch import Watch
+    url, mp, vr, sc = conc.text(e["url"]), conc.field(e["mp"]), conc.field(e["vr"]), conc.field(e["sc"])
+    opts = [conc.text(o) for o in e["o"]]
+    if style == 0 and not opts:
+        if sc is not None:
+            return Watch(url, mp, vr, sc)
+        if vr is not None:
+            return Watch(url, mp, vr)
+        if mp is not None:
+            return Watch(url, mp)
+        return Watch(url)
+    if style == 1:
+        return Watch(url, matching_pattern=mp, version=vr, script=sc, opts=opts if opts else None)
+    return Watch(url, mp, vr, sc, opts)
+
+
+def api_step(conc, reader, live, ev):
+    """execute one abstract call on the real objects; fills ev['out'] for observing calls.  Exceptions of the code under
+    test are observations (recorded as an impossible output)."""
+    from debian.watch import WatchFile
+    op = ev["op"]
+    try:
+        if op == "new":
+            v = ev["v"]
+            if ev.get("default"):
+                live.append(WatchFile())
+            else:
+                es = [build_watch(conc, e, (k + ev.get("style", 0)) % 3) for k, e in enumerate(v["es"])]
+                opts = [conc.text(o) for o in v["o"]]
+                if ev.get("style", 0) == 1 and not es and not opts:
+                    live.append(WatchFile(version=conc.ver(v["ver"])))
+                else:
+                    live.append(WatchFile(entries=es, options=opts, version=conc.ver(v["ver"])))
+        elif op == "parse":
+            ob, wf = run_parse(phys_lines(conc, ev["lines"], ev.get("nl", "nl")), ev["strict"], ev.get("src", "stringio"), want_obj=True)
+            ev["out"] = ob["r"]
+            if ob["r"] == "ok":
+                live.append(wf)
+        elif op == "addopt":
+            live[ev["t"] - 1].options.append(conc.text(ev["x"]))
+        elif op == "addent":
+            live[ev["t"] - 1].entries.append(build_watch(conc, ev["v"], ev.get("style", 0)))
+        elif op == "entopt":
+            live[ev["t"] - 1].entries[ev["i"] - 1].options.append(conc.text(ev["x"]))
+        elif op == "setver":
+            live[ev["t"] - 1].version = conc.ver(ev["i"])
+        elif op == "delent":
+            del live[ev["t"] - 1].entries[ev["i"] - 1]
+        elif op == "setfield":
+            setattr(live[ev["t"] - 1].entries[ev["i"] - 1], {"url": "url", "mp": "matching_pattern", "vr": "version", "sc": "script"}[ev["f"]],
+                    conc.field(ev["x"]))
+        elif op == "dump":
+            ev["out"] = reader.dump(run_dump(live[ev["t"] - 1]))
+        elif op == "iter":
+            ev["out"] = reader.value({"ver": 0, "o": [], "es": [[e.url, e.matching_pattern, e.version, e.script, list(e.options)]
+                                                              for e in iter(live[ev["t"] - 1])]})["es"]
+    except Exception as e:              # noqa: BLE001 -- observation
+        ev["out"] = "EXC:" + type(e).__name__
+        ev["exc"] = True
+    try:
+        ev["snap"] = [reader.value(proj(w)) for w in live]
+    except Exception as e:              # noqa: BLE001 -- observation
+        ev["snap"] = ["EXC:" + type(e).__name__]
+    return ev
+
+
+def gen_api_recipe(rng, big=None):
+    """a random call sequence (abstract); big = (entries, options) for one size-stressed object"""
+    evs, nlive, sizes = [], 0, []
+    nops = rng.randint(5, 12)
+
+    def val(ne, no):
+        return {"ver": rng.choice((3, 4)), "o": [rng.choice([[2], [3], [2, SP2, 3]]) for _ in range(no)],
+                "es": [gen_entry(rng) for _ in range(ne)]}
+    while len(evs) < nops:
+        r = rng.random()
+        if nlive == 0 or (r < 0.22 and nlive < 4):
+            kind = rng.random()
+            if big and not sizes:
+                evs.append({"op": "new", "v": val(big[0], big[1]), "style": rng.randint(0, 2)})
+            elif kind < 0.4:
+                evs.append({"op": "new", "v": {"ver": 4, "o": [], "es": []}, "default": True})
+            elif kind < 0.7:
+                evs.append({"op": "new", "v": val(rng.choice([0, 1, 2, 3]), rng.choice([0, 0, 1, 2])), "style": rng.randint(0, 2)})
+            else:
+                ver, lines, _k = gen_doc(rng, malformed=rng.random() < 0.3)
+                nl = rng.choice(NLS)
+                src = rng.choice(SOURCES)
+                evs.append({"op": "parse", "lines": lines, "strict": rng.random() < 0.4, "nl": nl, "src": src if usable(src, nl) else "list",
+                            "_ok": _k in ("ok",)})
+                if _k != "ok":
+                    continue                      # raises (or warns): no new object expected -- decided by TLC, see fixup
+            nlive += 1
+            sizes.append(None)
+            continue
+        t = rng.randint(1, nlive)
+        evs.append({"op": rng.choice(["addopt", "addent", "entopt", "setver", "delent", "setfield", "dump", "dump", "iter", "reparse"]), "t": t})
+    return evs
+
+
+def record_api(rng, conc, reader, recipe):
+    """run the recipe; calls that need an entry index pick one from what is really there (the reference state is what
+    TLC computes; here only inputs are chosen)"""
+    live, events = [], []
+    for ev in recipe:
+        ev = dict(ev)
+        ev.pop("_ok", None)
+        op = ev["op"]
+        if op == "reparse":
+            # the dump of a live object is parsed as a new object (not for the inputs of finding 1: quoted options and
+            # the url as only field)
+            if ev["t"] > len(live):
+                continue
+            val = reader.value(proj(live[ev["t"] - 1]))
+            if any(any(x in (SP1, SP2, SPD) for o in e["o"] for x in o) and not (e["mp"] or e["vr"] or e["sc"]) for e in val["es"]):
+                continue
+            lines = reader.dump(run_dump(live[ev["t"] - 1]))
+            if any(0 in l for l in lines):
+                continue
+            ev = {"op": "parse", "lines": lines, "strict": True, "nl": "nl", "src": "stringio"}
+            op = "parse"
+        if op in ("addopt", "addent", "entopt", "setver", "delent", "setfield", "dump", "iter"):
+            if ev["t"] > len(live):
+                continue
+            ne = len(live[ev["t"] - 1].entries)
+            if op in ("entopt", "delent", "setfield"):
+                if ne == 0:
+                    ev = {"op": "addent", "t": ev["t"]}
+                    op = "addent"
+                else:
+                    ev.setdefault("i", rng.randint(1, ne))
+            if op in ("addopt", "entopt"):
+                ev.setdefault("x", rng.choice([[2], [3], [2, SP2, 3], [SP2, 2]]))
+            if op == "addent":
+                ev.setdefault("v", gen_entry(rng))
+                ev.setdefault("style", rng.randint(0, 2))
+            if op == "setver":
+                ev.setdefault("i", rng.choice((3, 4)))
+            if op == "setfield":
+                ev.setdefault("f", rng.choice(["url", "mp", "vr", "sc"]))
+                ev.setdefault("x", rng.choice([[7], [8], [9, SP2, 9], [1, SL]] + ([[]] if ev["f"] != "url" else [])))
+        events.append(api_step(conc, reader, live, ev))
+    return {"kind": "api", "events": events}
+
+
+def api_conc(rng, stress=False):
+    c = make_conc(rng, "mstress" if stress else "marker")
+    c.num[4] = rng.choice(["4", "4", "04"])       # WatchFile() has DEFAULT_VERSION 4
+    c.num[3] = rng.choice(["3", "2", "03"])
+    return c
+
+
+# ------------------------------------------------------------------ (b) expand calls
+
+def gen_xtext(rng, n):
+    alpha = [XW, XAT, XLK, XLC] + [XPH + k for k in range(1, 6)] * 2
+    while True:
+        t = [rng.choice(alpha) for _ in range(n)]
+        has_at = lambda x: x == XAT or x == XLC or XPH < x <= XPH + 5      # noqa: E731
+        if all(not (t[i] == XLK and has_at(t[i - 1]) and has_at(t[i + 1])) for i in range(1, n - 1)):
+            return t
+
+
+def record_expand(xc, t):
+    """aligned read-back: walk the input symbols and see what stands in the output in their place"""
+    text = "".join(xc.sym_in(x) for x in t)
+    got = run_expand(text, xc.pkg)
+    out, pos = [], 0
+    if not isinstance(got, str):
+        return {"kind": "expand", "t": t, "out": [0]}, text, got
+    for x in t:
+        a = xc.sym_in(x)
+        if got.startswith(a, pos):
+            out.append(x)
+            pos += len(a)
+        elif XPH < x <= XPH + 5 and got.startswith(xc.sym_out(x + 10), pos):
+            out.append(x + 10)
+            pos += len(xc.sym_out(x + 10))
+        else:
+            out.append(0)
+            break
+    if pos != len(got) and (not out or out[-1] != 0):
+        out.append(0)
+    return {"kind": "expand", "t": t, "out": out}, text, got
+
+
+# ------------------------------------------------------------------ corrupted control traces
+
+def control_traces(traces):
+    out = []
+
+    def first(pred):
+        for t in traces:
+            if pred(t):
+                return copy.deepcopy(t)
+        return None
+    t = first(lambda t: t["kind"] == "parse" and t["final"]["r"] == "ok" and not t["final"]["warn"] and t["final"]["es"])
+    if t:                                           # a field of an entry differs
+        t["final"]["es"][-1]["url"] = t["final"]["es"][-1]["url"] + [SL]
+        out.append(t)
+    t = first(lambda t: t["kind"] == "parse" and t["final"]["r"] == "ok" and not t["final"]["warn"] and len(t["final"]["es"]) >= 2)
+    if t:                                           # an entry is missing
+        del t["final"]["es"][0]
+        out.append(t)
+    t = first(lambda t: t["kind"] == "parse" and t["final"]["r"] == "ok" and not t["final"]["warn"] and t["final"]["o"])
+    if t:                                           # global options in another order / one lost
+        t["final"]["o"] = t["final"]["o"][1:]
+        out.append(t)
+    t = first(lambda t: t["kind"] == "parse" and t["final"]["r"] == "MissingVersion")
+    if t:                                           # accepted without version line
+        t["final"] = {"r": "None", "ver": 0, "o": [], "es": [], "warn": False}
+        out.append(t)
+    t = first(lambda t: t["kind"] == "parse" and any(o["r"] == "ok" and not o["warn"] for o in t["obs"]))
+    if t:                                           # the version of a prefix observation differs
+        k = [i for i, o in enumerate(t["obs"]) if o["r"] == "ok" and not o["warn"]][0]
+        t["obs"][k]["ver"] = 7 - t["obs"][k]["ver"]
+        out.append(t)
+    t = first(lambda t: t["kind"] == "api" and len(t["events"][-1]["snap"]) >= 2)
+    if t:                                           # an object that was not the target changed
+        s = t["events"][-1]["snap"]
+        tgt = t["events"][-1].get("t", len(s))
+        other = 0 if tgt != 1 else 1
+        s[other]["o"] = s[other]["o"] + [[2]]
+        out.append(t)
+    t = first(lambda t: t["kind"] == "api" and any(e["op"] == "dump" and isinstance(e.get("out"), list) and len(e["out"]) >= 2 for e in t["events"]))
+    if t:                                           # a dump with another separator
+        e = [e for e in t["events"] if e["op"] == "dump" and isinstance(e.get("out"), list) and len(e["out"]) >= 2][0]
+        e["out"][-1] = [SP1 if x == SPD else x for x in e["out"][-1]] + [SPD]
+        out.append(t)
+    t = first(lambda t: t["kind"] == "expand" and any(XVAL < x for x in t["out"]))
+    if t:                                           # a placeholder left in place
+        t["out"] = [x - 10 if x > XVAL else x for x in t["out"]]
+        out.append(t)
+    t = first(lambda t: t["kind"] == "expand" and XLC in t["out"])
+    if t:                                           # a look-alike replaced
+        t["out"] = [XVAL + 5 if x == XLC else x for x in t["out"]]
+        out.append(t)
+    return out
+
+
+# ------------------------------------------------------------------ TLC plumbing
+
+class HashChoice:
+    """choices derived from the content of a case (TLC's output order depends on thread timing)"""
+
+    def __init__(self, h):
+        self.h = h & 0x7FFFFFFF
+
+    def _next(self):
+        self.h = (self.h * 1103515245 + 12345) & 0x7FFFFFFF
+        return self.h >> 8
+
+    def choice(self, seq):
+        return seq[self._next() % len(seq)]
+
+    def random(self):
+        return (self._next() % 10007) / 10007.0
+
+    def weighted(self, seq, weights):
+        x = self._next() % sum(weights)
+        for s, w in zip(seq, weights):
+            if x < w:
+                return s
+            x -= w
+        return seq[-1]
+
+
+def stream_printed(path):
+    """(tag, value, hash) for the <<"TAG", "json">> lines of a raw TLC output file"""
+    with open(path, errors="replace") as f:
+        for line in f:
+            if not (line.startswith('<<"C') or line.startswith('<<"X')):
+                continue
+            line = line.rstrip("\n")
+            if not line.endswith('">>'):
+                raise core.MachineryError("truncated TLC output line: %r" % line[:120])
+            tag, _, rest = line[3:].partition('", "')
+            yield tag, json.loads(rest[:-3].replace('\\"', '"')), zlib.crc32(rest.encode())
+
+
+NEG_CONTROLS = [
+    ("WatchFile", "WatchFile_neg.cfg", "StripIndentV3 = FALSE", "StripIndentV3 = TRUE", "ParseOK"),
+    ("WatchFile", "WatchFile_neg.cfg", "LeakBlank = FALSE", "LeakBlank = TRUE", "ParseOK"),
+    ("WatchFile", "WatchFile_neg.cfg", "NeverQuote = FALSE", "NeverQuote = TRUE", "RoundTrip"),
+    ("WatchFile", "WatchFile_neg.cfg", "PPKnown = TRUE", "PPKnown = FALSE", "RoundTrip"),
+    ("WatchFile", "WatchFile_neg.cfg", "CommentEndsCont = FALSE", "CommentEndsCont = TRUE", "InnerSkipped"),
+    ("WatchFileObjs", "MC_WatchFileObjs_neg.cfg", "SharedDefault = FALSE", "SharedDefault = TRUE", "HeapAgrees"),
+    ("WatchFileObjs", "MC_WatchFileObjs_neg.cfg", "SharedWatchDefault = FALSE", "SharedWatchDefault = TRUE", "HeapAgrees"),
+    ("WatchFileObjs", "MC_WatchFileObjs_neg.cfg", "ParseCached = FALSE", "ParseCached = TRUE", "HeapAgrees"),
+    ("WatchFileExpand", "WatchFileExpand_neg.cfg", "ExpandOnce = TRUE", "ExpandOnce = TRUE", "ImplIsExpand"),
+]
+
+
+def _neg_control(ctx, item):
+    module, cfgname, old, new, inv = item
+    base = open(os.path.join(core.SPEC, cfgname)).read()
+    if old not in base:
+        raise core.MachineryError("negative control: %r not in %s" % (old, cfgname))
+    r = ctx.tlc(module, base.replace(old, new), workers=1, count=False)
+    if r.violated != inv:
+        raise core.MachineryError("negative control %s: expected TLC to report %s, got %r" % (new, inv, r.violated))
+    return new.split(" = ")[0] + ("=FALSE" if new.endswith("FALSE") else ""), inv
+
+
+def background_models(ctx, pool):
+    """the spec-level negative controls and the two small design models run while the main enumeration is replayed"""
+    futs = [pool.submit(_neg_control, ctx, it) for it in NEG_CONTROLS]
+    futs.append(pool.submit(lambda: ("objs", ctx.tlc_must_hold("WatchFileObjs", "MC_WatchFileObjs.cfg", workers=1))))
+    return futs
+
+
+def cfg_constants(name):
+    out = {}
+    for line in open(os.path.join(core.SPEC, name)):
+        m = re.match(r"^\s+(\w+) = (.+)$", line)
+        if m:
+            out[m.group(1)] = m.group(2).strip()
+    return out
+
+
+# ------------------------------------------------------------------ (a) replay of everything TLC printed
+
+def replay_emission(ctx, raw_paths, known, quick, stats):
+    rng = ctx.rng
+    concs = {"real": [make_conc(rng, "real") for _ in range(16)] + [make_conc(rng, "marker") for _ in range(8)],
+             "stress": [make_conc(rng, "stress") for _ in range(16)] + [make_conc(rng, "mstress") for _ in range(8)]}
+    keep = stats.setdefault("_keep", {})
+    drift_seen = stats.setdefault("drift_by_zone", {})
+    samples = {}
+    scale_mod = 9 if quick else 23
+    for tag, v, h in (x for rp in raw_paths for x in stream_printed(rp)):
+        if len(ctx.violations) >= 5:
+            break
+        hc = HashChoice(h ^ (ctx.seed * 2654435761))
+        if tag == "CASE":
+            stats["cases"] += 1
+            stats["zone:" + v["zone"]] = stats.get("zone:" + v["zone"], 0) + 1
+            plans = [(CANON, "nl", "stringio")]
+            nrep = 2 if (not quick and h % 3 == 0) else 1
+            for rep in range(nrep):
+                conc = hc.choice(concs["stress" if (h >> 3) % 2 == rep else "real"])
+                nl = hc.choice(NLS) if hc.random() < 0.6 else "nl"
+                kind = hc.choice(SOURCES)
+                plans.append((conc, nl, kind if usable(kind, nl) else "list"))
+            if v["zone"] != "dom":
+                for conc, nl, kind in plans[:2]:
+                    msg = check_zone(v, conc, nl, kind)
+                    stats["real_calls"] += 1
+                    if msg:
+                        drift_seen[v["zone"]] = drift_seen.get(v["zone"], 0) + 1
+                        if drift_seen[v["zone"]] <= 3:
+                            ctx.drift(msg[:400])
+                ctx.case_seen(("zone", h), True)
+                continue
+            for k, (conc, nl, kind) in enumerate(plans):
+                msg = check_case(v, conc, nl, kind, known, probes=(k == 0), keep=keep if k == 0 else None)
+                stats["real_calls"] += 8
+                if msg:
+                    ctx.violation({"kind": "case", "v": v, "conc": conc.to_json(), "nl": nl, "src": kind, "probes": k == 0}, msg)
+                    break
+            if h % scale_mod == 0 and v["n"] >= 1 and not ctx.violations:
+                hs = HashChoice((h + 31) ^ (ctx.seed * 69069))
+                runs = [hs.weighted(COUNTS, COUNT_WEIGHTS) for _ in v["segs"]]
+                conc = hs.choice(concs["stress"][:6] + concs["real"])          # long lines x many lines stays small
+                if sum(runs) > 300:
+                    conc = hs.choice(concs["real"])
+                nl = hs.choice(NLS)
+                kind = hs.choice(SOURCES)
+                kind = kind if usable(kind, nl) else "tuple"
+                msg = check_scaled(scale_case(v, runs), conc, nl, kind, known)
+                stats["scaled"] += 1
+                stats["scaled_max_lines"] = max(stats["scaled_max_lines"], sum(r * s["n"] for r, s in zip(runs, v["segs"])))
+                for r in runs:
+                    stats["runs"][str(r)] = stats["runs"].get(str(r), 0) + 1
+                if msg:
+                    ctx.violation({"kind": "scaled", "v": v, "runs": runs, "conc": conc.to_json(), "nl": nl, "src": kind},
+                                  "[size stress: logical lines as runs %s] %s" % (runs, msg))
+            ctx.case_seen(("case", h), v["n"] > 0)
+            if v["n"] >= 2 and len(v["lines"]) >= 5 and h % 997 < 2:
+                conc = plans[-1][0]
+                samples[("a", h)] = "CASE lines=%s -> %s; e.g. %s" % (json.dumps(v["lines"], separators=(",", ":")), json.dumps(v["exp"], separators=(",", ":"))[:300],
+                                                                     show_text(phys_lines(conc, v["lines"], "nl")))
+        elif tag == "CBAD":
+            stats["bad"] += 1
+            stats["bad:" + v["kind"]] = stats.get("bad:" + v["kind"], 0) + 1
+            for rep in ((h >> 2) % 2,):
+                conc = CANON if rep == 0 else hc.choice(concs["real"] + concs["stress"][:8])
+                nl = hc.choice(NLS) if rep else "nl"
+                kind = hc.choice(SOURCES)
+                kind = kind if usable(kind, nl) else "list"
+                if v["kind"] == "dangling" and nl == "bare":
+                    nl = "nl"
+                msg = check_bad(v, conc, nl, kind, known)
+                stats["real_calls"] += 2
+                if msg:
+                    ctx.violation({"kind": "bad", "v": v, "conc": conc.to_json(), "nl": nl, "src": kind}, msg)
+                    break
+            ctx.case_seen(("bad", h), True)
+            if h % 1499 == 0:
+                samples[("b", h)] = "CBAD %s %s -> strict: %s, lax: %s" % (v["kind"], show_text(phys_lines(CANON, v["lines"], "nl")), v["strict"], v["lax"])
+        elif tag == "XCASE":
+            stats["xcases"] += 1
+            for rep in range(2):
+                xc = make_xconc(hc, stress=rep == 1)
+                reps = 1 if rep == 0 else hc.weighted(COUNTS[1:], COUNT_WEIGHTS[1:])
+                if reps * len(v["t"]) * max(len(xc.word), len(xc.pkg)) > 3000000:
+                    reps = 3
+                msg = check_xcase(v["t"], v["out"], xc, reps)
+                stats["real_calls"] += 1
+                if msg:
+                    ctx.violation({"kind": "xcase", "t": v["t"], "out": v["out"], "xc": xc.to_json(), "reps": reps}, msg)
+                    break
+            ctx.case_seen(("x", h), any(x > XPH for x in v["t"]))
+    for k in sorted(samples)[:2]:
+        ctx.sample(samples[k])
+
+
+# ------------------------------------------------------------------ (b) recorded executions
+
+def record_executions(ctx, quick, stats):
+    rng = ctx.rng
+    traces, metas = [], []
+    ndocs = 160 if quick else 1200
+    for i in range(ndocs):
+        conc = make_conc(rng, "mstress" if i % 4 == 0 else "marker")
+        ver, lines, kind = gen_doc(rng)
+        nl = rng.choice(NLS)
+        src = rng.choice(SOURCES)
+        src = src if usable(src, nl) else "list"
+        strict = rng.random() < 0.4
+        traces.append(record_parse(rng, conc, Reader(conc), lines, strict, src, nl))
+        metas.append({"kind": "trace", "tkind": "parse", "lines": lines, "strict": strict, "src": src, "nl": nl, "conc": conc.to_json(), "doc": kind})
+        stats["doc:" + kind] = stats.get("doc:" + kind, 0) + 1
+    sizes = [9, 33, 100, 257] + ([1000] if ctx.seed % 2 == 0 else [600]) if quick else [9, 10, 11, 31, 33, 99, 100, 101, 255, 256, 257, 1000, 1001, 3000]
+    for n in sizes:                                     # size stress: documents of many logical lines, line by line in TLC
+        conc = make_conc(rng, "mstress" if n <= 100 else "marker")
+        ver, lines, kind = gen_doc(rng, nitems=n, malformed=False, big=n > 100)
+        src = rng.choice(("list", "stringio", "gen"))
+        traces.append(record_parse(rng, conc, Reader(conc), lines, False, src, "nl", nobs=16))
+        metas.append({"kind": "trace", "tkind": "parse", "lines": lines, "strict": False, "src": src, "nl": "nl", "conc": conc.to_json(), "doc": "big"})
+        stats["longest_document_lines"] = max(stats.get("longest_document_lines", 0), len(lines))
+    nparse = len(traces)
+    napi = 70 if quick else 500
+    bigs = {3: (257, 33), 7: (1000, 3), 9: (2, 257), 11: (100, 100), 13: (33, 1)}
+    for i in range(napi):
+        conc = api_conc(rng, i % 5 == 0)
+        recipe = gen_api_recipe(rng, bigs.get(i))
+        tr = record_api(rng, conc, Reader(conc), recipe)
+        traces.append(tr)
+        metas.append({"kind": "trace", "tkind": "api", "conc": conc.to_json(),
+                      "recipe": [{k: x for k, x in e.items() if k not in ("out", "snap", "exc")} for e in tr["events"]]})
+        for e in tr["events"]:
+            stats["op:" + e["op"]] = stats.get("op:" + e["op"], 0) + 1
+    nx = 150 if quick else 1500
+    for i in range(nx):
+        xc = make_xconc(rng, i % 4 == 0)
+        t = gen_xtext(rng, rng.choice([0, 1, 2, 3, 5, 8, 12, 12, 30]))
+        tr, text, got = record_expand(xc, t)
+        traces.append(tr)
+        metas.append({"kind": "trace", "tkind": "expand", "xc": xc.to_json(), "t": t})
+    return traces, metas, nparse, napi, nx
+
+
+def validate_executions(ctx, quick, stats, traces, metas, nparse, napi, nx):
+    controls = control_traces(traces)
+    if len(controls) < 6:
+        raise core.MachineryError("only %d control traces could be built" % len(controls))
+    acc, _, r = core.validate_traces(ctx, "TraceWatchFile", "TraceWatchFile.cfg", traces, extra_env={"TRACE_DIAG": "0"}, controls=controls,
+                                     workers=4, java_opts=["-Xss64m"] + (["-XX:TieredStopAtLevel=1"] if quick else []))
+    rejected = [i for i in range(1, len(traces) + 1) if i not in acc]
+    ctx.traces += len(traces)
+    ctx.evaluations += len(traces)
+    for i in range(len(traces)):
+        ctx.distinct.add(("trace", i))
+    stats["traces"] = {"parse": nparse, "api": napi, "expand": nx, "rejected": len(rejected), "controls": len(controls),
+                       "physical_lines": sum(len(t["lines"]) for t in traces[:nparse]), "api_calls": sum(len(t["events"]) for t in traces[nparse:nparse + napi])}
+    ex = next((t for t in traces[:nparse] if t["final"]["r"] == "ok" and 2 <= len(t["final"]["es"]) <= 3 and len(t["lines"]) <= 9), None)
+    if ex:
+        ctx.sample("recorded parse: lines=%s -> %s" % (json.dumps(ex["lines"], separators=(",", ":")), json.dumps(ex["final"], separators=(",", ":"))[:400]))
+    if rejected:
+        sub = [traces[i - 1] for i in rejected[:8]]
+        _, prog, _ = core.validate_traces(ctx, "TraceWatchFile", "TraceWatchFile.cfg", sub, extra_env={"TRACE_DIAG": "1"}, java_opts=["-Xss64m"])
+        for j, i in enumerate(rejected[:5]):
+            ctx.violation(dict(metas[i - 1], trace=_slim(traces[i - 1])), explain_trace(traces[i - 1], metas[i - 1], prog.get(j + 1, 0)))
+
+
+def _slim(tr):
+    """replay files stay small: the recipe is enough to re-record the trace"""
+    if tr["kind"] == "api":
+        return {"kind": "api", "n": len(tr["events"])}
+    if tr["kind"] == "parse":
+        return {"kind": "parse", "final": tr["final"] if len(json.dumps(tr["final"])) < 4000 else "(large)"}
+    return tr
+
+
+def explain_trace(tr, meta, at):
+    if tr["kind"] == "expand":
+        xc = XConc(**meta["xc"])
+        text = "".join(xc.sym_in(x) for x in tr["t"])
+        return "recorded expand(%s, %s) = %s is not what WatchFileExpand says (symbols %s -> %s)" % (
+            _sh(text, 200), _sh(xc.pkg), _sh(run_expand(text, xc.pkg), 200), tr["t"], tr["out"])
+    conc = Conc.from_json(meta["conc"])
+    if tr["kind"] == "parse":
+        phys = phys_lines(conc, tr["lines"][:at + 1] if at < len(tr["lines"]) else tr["lines"], meta["nl"])
+        ob = tr["obs"][at] if at < len(tr["lines"]) else tr["final"]
+        return "recorded execution not explained by WatchFile: from_lines(%s, strict=%s) (%s source; first %d of %d lines) gives %s (as symbols)" % (
+            show_text(phys), tr["strict"], meta["src"], min(at + 1, len(tr["lines"])), len(tr["lines"]), json.dumps(ob, separators=(",", ":"))[:700])
+    ev = tr["events"][min(at, len(tr["events"]) - 1)]
+    return "recorded API history not explained by WatchFileOps: call %d %s left the live objects as %s (symbols; words %s)" % (
+        at + 1, json.dumps({k: x for k, x in ev.items() if k != "snap"}, separators=(",", ":"))[:500],
+        json.dumps(ev["snap"], separators=(",", ":"))[:700], conc.brief()[:300])
+
+
+# ------------------------------------------------------------------ the check
+
+def run(ctx):
+    quick = ctx.tier == "quick"
+    known = Known()
+    stats = {"cases": 0, "bad": 0, "xcases": 0, "scaled": 0, "scaled_max_lines": 0, "real_calls": 0, "runs": {}}
+    cfgs = ["WatchFile_quick_layout.cfg", "WatchFile_quick_seq.cfg"] if quick else \
+           ["WatchFile_layout.cfg", "WatchFile_cut2.cfg", "WatchFile_pairs.cfg", "WatchFile_seq3.cfg", "WatchFile_gaps.cfg"]
+    ctx.extra["model_constants"] = {c: {k: x for k, x in cfg_constants(c).items() if k in ("MaxItems", "ItemMode", "LayoutMode", "GapMode", "VFormMode")}
+                                    for c in cfgs}
+    ctx.assumptions += [
+        "small scope for the exhaustive part: <= 3 logical lines per document; one or two folds per logical line; items from Prefixes x UrlShapes x Tails",
+        "words are opaque: no white space, none of \" , ( ), '/' only in the url head / options / separate pattern / script; blanks are ' ' and TAB; no CR; str input only",
+        "unspecified, executed and compared with the model as drift only: format-dependent folds (zone glue), comment / blank lines inside a continuation (zone inner), "
+        "the result of a non-strict call on a file ending in a continuation",
+        "three findings on the current tree are reported as KNOWN-FINDING lines (KNOWN in harness/props/x02.py); the trace generators avoid their inputs",
+        "trusted: TLC, the concretizer and the reader that maps results back to symbols (a wrong reading is rejected by TLC, never accepted), the uscan(1) table of substitutions",
+    ]
+    pool = ThreadPoolExecutor(max_workers=2)        # negative controls and the heap model, one TLC worker each
+    main = ThreadPoolExecutor(max_workers=1)        # the enumerations, one after the other
+    try:
+        futs = background_models(ctx, pool)
+        emis = [main.submit(ctx.tlc_must_hold, "WatchFileExpand", "WatchFileExpand.cfg", workers=1, keep_raw=True, want_tags=set())]
+        emis += [main.submit(ctx.tlc_must_hold, "WatchFile", c, workers=4 if quick else 6, keep_raw=True, want_tags=set()) for c in cfgs]
+        # meanwhile: record executions of the real code (validated by TLC at the end)
+        recorded = record_executions(ctx, quick, stats)
+        for f in emis:
+            r = f.result()
+            replay_emission(ctx, [r.raw_path], known, quick, stats)
+            shutil.rmtree(os.path.dirname(r.raw_path), ignore_errors=True)
+        done = {}
+        for f in futs:
+            k, x = f.result()
+            if k != "objs":
+                done[k] = x
+        ctx.extra["spec_negative_controls"] = done
+    finally:
+        main.shutdown(wait=True)
+        pool.shutdown(wait=True)
+    if not ctx.violations and (stats["cases"] == 0 or stats["bad"] == 0 or stats["xcases"] == 0):
+        raise core.MachineryError("TLC emitted no CASE / CBAD / XCASE lines: %r" % stats)
+    ctx.traces += stats["cases"] + stats["bad"] + stats["xcases"]
+    if len(ctx.violations) < 5:
+        validate_executions(ctx, quick, stats, *recorded)
+    stats.pop("_keep", None)
+    ctx.extra["replay"] = stats
+    ctx.extra["known_findings"] = {k: {"occurrences": n, "example": known.examples[k][:400]} for k, n in sorted(known.hits.items())}
+    for f in KNOWN:
+        if known.hits.get(f["id"]):
+            print("KNOWN-FINDING: extra=X02 %s: %s (%d occurrences; e.g. %s)" % (f["id"], f["signature"], known.hits[f["id"]], known.examples[f["id"]][:300]))
+
+
+def replay(ctx, case):
+    kind = case["kind"]
+    known = Known()
+    if kind in ("case", "scaled", "bad"):
+        conc = Conc.from_json(case["conc"])
+        if kind == "case":
+            return check_case(case["v"], conc, case["nl"], case["src"], known, probes=case.get("probes", True), keep={})
+        if kind == "scaled":
+            return check_scaled(scale_case(case["v"], case["runs"]), conc, case["nl"], case["src"], known)
+        return check_bad(case["v"], conc, case["nl"], case["src"], known)
+    if kind == "xcase":
+        return check_xcase(case["t"], case["out"], XConc(**case["xc"]), case["reps"])
+    if kind == "trace":
+        import random
+        rng = random.Random(0)
+        if case["tkind"] == "expand":
+            tr, _, _ = record_expand(XConc(**case["xc"]), case["t"])
+        else:
+            conc = Conc.from_json(case["conc"])
+            if case["tkind"] == "parse":
+                tr = record_parse(rng, conc, Reader(conc), case["lines"], case["strict"], case["src"], case["nl"], nobs=200)
+            else:
+                live, events = [], []
+                for ev in case["recipe"]:
+                    events.append(api_step(conc, Reader(conc), live, dict(ev)))
+                tr = {"kind": "api", "events": events}
+        acc, prog, _ = core.validate_traces(ctx, "TraceWatchFile", "TraceWatchFile.cfg", [tr], extra_env={"TRACE_DIAG": "1"}, java_opts=["-Xss64m"])
+        if 1 not in acc:
+            return "execution still not explained by the specification: " + explain_trace(tr, case, prog.get(1, 0))
+        return None
+    return "unknown case kind"
